@@ -32,18 +32,36 @@ func c13QROne(r *fw.Rec, mode qrref.Mode, l qrref.Level, n, forced int, viaWrite
 // the 45-set do not depend on a character set, so the hint must not cost capacity: the lowest
 // version that holds the content is the same with and without it.
 func c13QROneCS(r *fw.Rec, mode qrref.Mode, l qrref.Level, n, forced int, viaWriter bool, cs string) bool {
+	return c13QROneGS1(r, mode, l, n, forced, viaWriter, cs, nil)
+}
+
+// c13QROneGS1: gs1 != nil adds a GS1_FORMAT hint with that value.  A false value (bool or
+// string) leaves the symbol a plain one with the plain capacity; a true value puts the 4-bit
+// FNC1-in-first-position indicator before the segment, and the capacity is the standard's for
+// 4 bits less.
+func c13QROneGS1(r *fw.Rec, mode qrref.Mode, l qrref.Level, n, forced int, viaWriter bool, cs string, gs1 interface{}) bool {
 	text, _, charset := qrPayload(r.Rng, mode, n)
 	if cs != "" && (mode == qrref.Numeric || mode == qrref.Alphanumeric) {
 		charset = cs
 	}
 	hints := qrHints(forced, int(r.Rng.Intn(8)), charset)
-	want := qrref.MinVersion(n, mode, l)
+	header := 0
+	if gs1 != nil {
+		hints[gozxing.EncodeHintType_GS1_FORMAT] = gs1
+		if b, ok := gs1.(bool); ok && b {
+			header = 4
+		}
+		if s, ok := gs1.(string); ok && (s == "true" || s == "True" || s == "TRUE") {
+			header = 4
+		}
+	}
+	want := qrref.MinVersionWithHeader(n, mode, l, header)
 	fits := want != 0
 	if forced > 0 {
-		fits = qrref.Capacity(forced, l, mode) >= n
+		fits = qrref.CapacityWithHeader(forced, l, mode, header) >= n
 		want = forced
 	}
-	info := map[string]interface{}{"mode": qrModeName[mode], "level": qrLevelName[l], "length": n, "forced_version": forced, "expected_version": want, "fits": fits, "charset_hint": charset}
+	info := map[string]interface{}{"mode": qrModeName[mode], "level": qrLevelName[l], "length": n, "forced_version": forced, "expected_version": want, "fits": fits, "charset_hint": charset, "gs1_format_hint": fmt.Sprintf("%T(%v)", gs1, gs1)}
 	r.Evals(1)
 	got := 0
 	var err error
@@ -166,6 +184,60 @@ func c13DMWriter(r *fw.Rec, n, shape int, min, max *[2]int) bool {
 	return true
 }
 
+// c13DMBinary encodes n characters U+0080..U+00FF (one Base 256 run from the first character to
+// the end of the message) and checks the symbol against the smallest that holds latch + length
+// field + n: the length field is one codeword for runs up to 249 and for a run that ends exactly
+// at the end of the symbol, two codewords otherwise (ISO 16022 5.2.9.2).
+func c13DMBinary(r *fw.Rec, n, shape int) bool {
+	rs := make([]rune, n)
+	for i := range rs {
+		rs[i] = rune(0x80 + r.Rng.Intn(0x80))
+	}
+	hints := map[gozxing.EncodeHintType]interface{}{}
+	if shape != 0 {
+		hints[gozxing.EncodeHintType_DATA_MATRIX_SHAPE] = dmShape(shape)
+	}
+	var want dmref.Symbol
+	ok := false
+	for _, s := range dmref.Symbols() {
+		if (shape == 1 && s.Rows != s.Cols) || (shape == 2 && s.Rows == s.Cols) {
+			continue
+		}
+		if s.DataCW == n+2 || (n <= 249 && s.DataCW >= n+2) || s.DataCW >= n+3 {
+			want, ok = s, true
+			break
+		}
+	}
+	info := map[string]interface{}{"binary_bytes": n, "shape": dmShapeName[shape]}
+	var bm *gozxing.BitMatrix
+	var err error
+	msg, stack, panicked := fw.Guard(func() {
+		bm, err = datamatrix.NewDataMatrixWriter().Encode(string(rs), gozxing.BarcodeFormat_DATA_MATRIX, 0, 0, hints)
+	})
+	r.Evals(1)
+	if panicked {
+		r.Violation("panic", "dm.writer:panic:"+fw.PanicSite(stack), fmt.Sprintf("DataMatrixWriter.Encode(%d bytes >= 0x80, %s) panicked: %s", n, dmShapeName[shape], msg), info)
+		return false
+	}
+	if ok != (err == nil) {
+		r.Violation("model-mismatch", "dm.writer:binary:admissibility", fmt.Sprintf("DataMatrixWriter.Encode(%d bytes >= 0x80, %s): err=%v, reference admissible=%v", n, dmShapeName[shape], err, ok), info)
+		return false
+	}
+	if ok {
+		if bm.GetHeight() != want.Rows || bm.GetWidth() != want.Cols {
+			r.Violation("model-mismatch", "dm.writer:binary:not-smallest", fmt.Sprintf("DataMatrixWriter.Encode(%d bytes >= 0x80, %s) = %dx%d, smallest symbol holding the Base 256 run is %dx%d (%d codewords)", n, dmShapeName[shape], bm.GetHeight(), bm.GetWidth(), want.Rows, want.Cols, want.DataCW), info)
+			return false
+		}
+		r.Tally("dm_binary_symbol_as_expected")
+		if want.DataCW == n+2 {
+			r.Tally("dm_binary_exact_fill")
+		}
+	} else {
+		r.Tally("dm_binary_refused_as_expected")
+	}
+	return true
+}
+
 func c13(c *fw.Ctx) {
 	c.Rule("QR: for every (mode, level, version) the lengths cap(v) and cap(v)+1 with automatic version, and forced versions v (exact), v-1 (refused) and v+1 (honoured); the same boundaries for numeric / alphanumeric content under a CHARACTER_SET hint (which must not cost capacity); thorough: every length 1..cap(40)+1 for all 16 (mode, level) pairs; observed through Encoder_encode's version and through the writer's 0x0 output dimension; expected version from qrref capacities (ISO 18004 tables). Data Matrix: every codeword count 1..1559 x 3 shapes through SymbolInfo_Lookup and (as digit strings) through the writer's 0x0 output size, and (min, max) dimension pairs drawn from the 30 sizes (+-1), compared with dmref's Table 7 in capacity order; distinct = distinct (kind, mode/shape, level, length, hints)")
 	c.Assume("payloads select their mode unambiguously (digits / 45-set with a letter / UTF-8 with a lower-case letter / Shift_JIS double-byte with the Shift_JIS hint); the mask is forced to skip the penalty search")
@@ -219,6 +291,17 @@ func c13(c *fw.Ctx) {
 						ok = c13QROneCS(r, mode, l, capv, 0, viaWriter, cs) && c13QROneCS(r, mode, l, capv+1, 0, false, cs) && c13QROneCS(r, mode, l, capv, v, false, cs)
 						if ok {
 							r.Tally("qr_hinted_non_byte_boundaries")
+						}
+						// GS1_FORMAT: false values cost nothing, true values cost the 4-bit indicator
+						off := []interface{}{false, "false", "False", "FALSE"}[(v+int(l))%4]
+						on := []interface{}{true, "true", "True", true}[(v+2*int(l))%4]
+						capg := qrref.CapacityWithHeader(v, l, mode, 4)
+						ok = ok && c13QROneGS1(r, mode, l, capv, 0, viaWriter, "", off) && c13QROneGS1(r, mode, l, capv+1, 0, false, "", off) && c13QROneGS1(r, mode, l, capv, v, false, "", off)
+						if ok && capg >= 1 {
+							ok = c13QROneGS1(r, mode, l, capg, 0, viaWriter, "", on) && c13QROneGS1(r, mode, l, capg+1, 0, false, "", on) && c13QROneGS1(r, mode, l, capg, v, false, "", on) && c13QROneGS1(r, mode, l, capg+1, v, false, "", on)
+						}
+						if ok {
+							r.Tally("qr_gs1_hint_boundaries")
 						}
 					}
 					if ok {
@@ -277,6 +360,28 @@ func c13(c *fw.Ctx) {
 		}
 	}
 	c.Exhaustive("Data Matrix codeword counts 1..1559 x {none, square, rectangle} through SymbolInfo_Lookup")
+	// --- Data Matrix: Base 256 runs of every length (the length field is 1 or 2 codewords)
+	for shape := 0; shape < 3; shape++ {
+		for lo := 4; lo <= 1558; lo += 40 {
+			shape, lo := shape, lo
+			c.Run(fmt.Sprintf("dm/binary/%s/%d", dmShapeName[shape], lo), func(r *fw.Rec) {
+				for n := lo; n < lo+40 && n <= 1558; n++ {
+					exact := false
+					for _, s := range dmref.Symbols() {
+						if d := s.DataCW - n; d >= 1 && d <= 4 {
+							exact = true
+						}
+					}
+					if exact || !c.Quick() || r.Rng.Intn(8) == 0 {
+						if !c13DMBinary(r, n, shape) {
+							return
+						}
+						r.NontrivialH(0xB<<60 | uint64(shape)<<32 | uint64(n))
+					}
+				}
+			})
+		}
+	}
 	// --- Data Matrix: (min, max) pairs from the size list
 	syms := dmref.Symbols()
 	npairs := 0
@@ -334,10 +439,14 @@ func c13(c *fw.Ctx) {
 	c.Exhaustive("Data Matrix (min, max) pairs over the 30 sizes: all 900")
 	c.Floor("qr_version_as_expected", 1500)
 	c.Floor("qr_hinted_non_byte_boundaries", 250)
+	c.Floor("qr_gs1_hint_boundaries", 250)
 	c.Floor("qr_refused_as_expected", 300)
 	c.Floor("dm_lookup_symbol_as_expected", 3000)
 	c.Floor("dm_writer_symbol_as_expected", 300)
 	c.Floor("dm_writer_refused_as_expected", 10)
+	c.Floor("dm_binary_symbol_as_expected", 200)
+	c.Floor("dm_binary_exact_fill", 20)
+	c.Floor("dm_binary_refused_as_expected", 3)
 	c.Floor("published_figures_confirmed", 1)
 }
 
